@@ -336,6 +336,10 @@ class PrintrunWriter(BaseWriter):
             self._logger.debug("Device message: %s", message)
 
             if lower_message.startswith(SUCCESS_PREFIXES):
+                # Some reports come on the same line of the acknowledgment,
+                # such as 'ok T:201 /202 B:117 /120'. Parse them before
+                # the acknowledgment wakes up the writer.
+                self._parse_message(message)
                 self._ack_event.set()
                 return
             elif lower_message.startswith(ERROR_PREFIXES):
